@@ -8,7 +8,7 @@ the demo fails), runs ./check CNN (+ extras) against the patched tree, and files
 import json, os, re, shutil, subprocess, sys, time
 pid, x = sys.argv[1], sys.argv[2]
 extra = sys.argv[3:]
-src = "/tmp/seedwork/%s/_seed" % pid
+src = "%s/%s/_seed" % (os.environ.get("SEEDWORK", "/tmp/seedwork"), pid)
 dst = "/verif/seeded/%s-%s" % (pid, x)
 def sh(*a, **k):
     return subprocess.run(a, capture_output=True, text=True, stdin=subprocess.DEVNULL, **k)
